@@ -63,6 +63,8 @@ GROUPS = {
   "TwoWayNew": [
     ("src/arch/all/twoway.rs", r"impl Finder \{", "Finder", ["new"]),
     ("src/arch/all/twoway.rs", r"impl FinderRev \{", "FinderRev", ["new"])],
+  "PackedPairNew": [
+    ("src/arch/generic/packedpair.rs", r"impl<V: Vector> Finder<V> \{", "PPFinder", ["new"])],
   "IterNext": [
     ("src/memmem/mod.rs", r"impl<'h, 'n> Iterator for FindIter<'h, 'n> \{", "FindIter", ["next"]),
     ("src/memmem/mod.rs", r"impl<'h, 'n> Iterator for FindRevIter<'h, 'n> \{", "FindRevIter", ["next"])],
@@ -80,6 +82,11 @@ VIEWS = {
     "Iter": ("src/arch/generic/memchr.rs", [("start", "usize"), ("end", "usize")], {}, ["start", "end"]),
     "FindRevIter": ("src/memmem/mod.rs", [("haystack", "&[u8]"), ("pos", "Option<usize>")], {}, ["haystack", "pos", "finder"]),
 }
+VIEWS["PPFinder"] = ("src/arch/generic/packedpair.rs",
+                     [("pair", "Pair"), ("v1", "u8"), ("v2", "u8"), ("min_haystack_len", "usize")], {},
+                     ["pair", "v1", "v2", "min_haystack_len"])
+VIEW_STRUCT_NAME = {"PPFinder": "Finder"}      # the Rust name of a view whose Coq name differs
+STRUCT_ALIAS = {"PackedPairNew": {"Finder": "PPFinder"}}
 # Oracles: calls of code that is NOT translated (the searchers themselves) become function parameters of the
 # generated definition; the tie lemma quantifies over every oracle that agrees with the model's search.
 # (container, fn) -> {rendered receiver + "." + method: (parameter name, [indices of the arguments passed on], result type)}
@@ -99,16 +106,20 @@ STRUCTS = {
     "Searcher": {},
     "IterHint": {},
     "IterNext": {},
+    "PackedPairNew": {},
     "Shift": {},
     "Suffix": {"Suffix": "src/arch/all/twoway.rs"},
     "TwoWayNew": {"TwoWay": "src/arch/all/twoway.rs", "Finder": "src/arch/all/twoway.rs", "FinderRev": "src/arch/all/twoway.rs"},
 }
 # a group may call the functions and use the types of other groups (their Code<G>.v is imported, not repeated)
-GROUP_IMPORTS = {"TwoWayNew": ["ByteSet", "Suffix", "Shift"]}
+GROUP_IMPORTS = {"TwoWayNew": ["ByteSet", "Suffix", "Shift"], "PackedPairNew": ["Pair"]}
+# the vector type parameter V of the generic packed-pair finder: V::BYTES is a parameter of the generated
+# definition, V::splat(b) is represented by the byte b (a vector whose lanes all hold b)
+VECTOR_PARAM = "V"
 # enums read from the source: group -> {name: file}
 ENUMS = {"Shift": {"Shift": "src/arch/all/twoway.rs"},
          "Suffix": {"SuffixKind": "src/arch/all/twoway.rs", "SuffixOrdering": "src/arch/all/twoway.rs"}}
-VIEW_GROUPS = {"IterHint": ["FindIter", "Iter"], "IterNext": ["FindIter", "FindRevIter"]}
+VIEW_GROUPS = {"IterHint": ["FindIter", "Iter"], "IterNext": ["FindIter", "FindRevIter"], "PackedPairNew": ["PPFinder"]}
 # type hints for locals whose type Rust infers backwards
 LOCAL_HINTS = {("ApproximateByteSet", "new", "bits"): "u64",
                ("Pair", "with_ranker", "index1"): "u8", ("Pair", "with_ranker", "index2"): "u8",
@@ -596,6 +607,8 @@ class Tr:
         self.enums = {}
         self.in_loop = False
         self.oracles_used = {}
+        self.type_consts_used = {}
+        self.struct_alias = {}
         self.nloops = 0
         self.uses_fuel = False
         self.aux = []
@@ -654,6 +667,9 @@ class Tr:
                 raise TieBroken(f"{w}: unknown name {p[0]}")
             if len(p) == 2 and p[0] in self.enums and any(v == p[1] and not f for v, f in self.enums[p[0]]):
                 return R(f"{p[0]}_{p[1]}", True, p[0])
+            if p == [VECTOR_PARAM, "BYTES"]:
+                self.type_consts_used["V_BYTES"] = "usize"
+                return R("V_BYTES", True, "usize")
             if len(p) == 2 and p[0] in INT_BITS and p[1] == "MAX":
                 return R(f"(tmax {INT_BITS[p[0]]})", True, p[0])
             if len(p) == 3 and p[0] == "core" and p[1] in INT_BITS and p[2] == "MAX":
@@ -743,7 +759,7 @@ class Tr:
                 return R(f"(idx_chk {ps[0].text} {ps[1].text})", False, "u8")
             return self.bind_all([r0, ri], fi)
         if k == "struct":
-            name = e[1][-1]
+            name = self.struct_alias.get(e[1][-1], e[1][-1])
             st = self.structs.get(name)
             if not st:
                 raise TieBroken(f"{w}: unknown struct {name}")
@@ -965,6 +981,8 @@ class Tr:
                     raise TieBroken(f"{w}: {path[0]} on non-slices")
                 return R(f"({path[0]}_l {ps[0].text} {ps[1].text})", True, "bool")
             return self.bind_all(rs_, fs)
+        if path == [VECTOR_PARAM, "splat"] and len(args) == 1:
+            return self.expr(args[0], env, "u8")
         if path == ["Some"] and len(args) == 1:
             inner = None
             if want and want.startswith("Option<"):
@@ -1684,7 +1702,7 @@ def collect(repo, group, src):
         structs[name] = read_struct(src(rel), name, f"{rel}: struct {name}")
     for vname in VIEW_GROUPS.get(group, []):
         vrel, vfields, _, must = VIEWS[vname]
-        sm_ = re.search(r"\bstruct %s\b[^{;]*\{" % re.escape(vname), src(vrel))
+        sm_ = re.search(r"\bstruct %s\b[^{;]*\{" % re.escape(VIEW_STRUCT_NAME.get(vname, vname)), src(vrel))
         if not sm_:
             raise TieBroken(f"{vrel}: struct {vname} not found")
         sbody = src(vrel)[sm_.end() - 1:match_brace(src(vrel), sm_.end() - 1, vname)]
@@ -1765,6 +1783,9 @@ def translate(repo, group, _emit=True):
     for rel, prefix, fn, what in parsed:
         tr = Tr(structs, fnsigs, prefix, fn, what)
         tr.enums = enums
+        tr.struct_alias = STRUCT_ALIAS.get(group, {})
+        fn["ret"] = re.sub(r"<[A-Z]>$", "", fn["ret"])
+        fn["ret"] = tr.struct_alias.get(fn["ret"], fn["ret"])
         env = {}
         binders = []
         if fn["selfmode"]:
@@ -1801,6 +1822,8 @@ def translate(repo, group, _emit=True):
         fn["uses_fuel"] = tr.uses_fuel
         for oname, (nargs, oty) in sorted(tr.oracles_used.items(), reverse=True):
             binders.insert(0, f"({oname} : " + " -> ".join(["list N"] * nargs) + f" -> {coq_type(oty, structs, what)})")
+        for cname in sorted(tr.type_consts_used, reverse=True):
+            binders.insert(0, f"({cname} : N)")
         if tr.uses_fuel:
             binders.insert(0, "(fuel : nat)")
         for a_ in tr.aux:
